@@ -258,6 +258,9 @@ func cmdFn(args []string) {
 					}
 				}
 				fmt.Printf("  FAIL(%s) %-80s %5.2fs %s %s%s\n", r.status, r.obl.name, r.secs, r.solver, r.obl.pos, extra)
+				if r.solver == "generator" {
+					fmt.Printf("       %s\n", r.rawOut)
+				}
 				if *replay {
 					ro := writeReplay(w, g, r, "dev", filepath.Join(*out, "replays"), true)
 					fmt.Printf("      replay %s confirmed=%v\n", ro.path, ro.confirmed)
